@@ -994,28 +994,20 @@ fn part_search(o: &mut Outcome, rng: &mut Rng, tier: &str) {
     let nholes: usize = ts.iter().map(|t| t.holes.len()).sum();
     o.count_n("gen:holes", nholes as u64);
     o.count_n("gen:universe", (nholes * STYLES.len() * GEN_WIDTHS.len() * GEN_OPTS.len()) as u64);
-    // the elements of this run: thorough = the whole generated universe; quick = every (hole, style)
-    // with 4 seeded (width, option set) choices
+    // the elements of this run: every (hole, style) with 4 (quick) / 60 (thorough) seeded (width, option
+    // set) choices out of 300; the whole universe (2,671,500 elements) is run by `--tier sweep-gen`
     let mut chosen: Vec<Elem> = vec![];
     let mut seen: HashSet<String> = HashSet::new();
-    if thorough {
-        for e in gen_universe(&ts) {
-            if !dirty.contains(&e.id) {
-                chosen.push(e);
-            }
-        }
-        o.exhaustive = true;
-    } else {
-        for t in &ts {
-            for hi in 0..t.holes.len() {
-                for style in STYLES {
-                    for _ in 0..4 {
-                        let w = *rng.pick(GEN_WIDTHS);
-                        let opt = rng.pick(GEN_OPTS).0;
-                        let e = gen_elem(t, hi, style, w, opt);
-                        if !dirty.contains(&e.id) && seen.insert(e.id.clone()) {
-                            chosen.push(e);
-                        }
+    let reps = if thorough { 60 } else { 4 };
+    for t in &ts {
+        for hi in 0..t.holes.len() {
+            for style in STYLES {
+                for _ in 0..reps {
+                    let w = *rng.pick(GEN_WIDTHS);
+                    let opt = rng.pick(GEN_OPTS).0;
+                    let e = gen_elem(t, hi, style, w, opt);
+                    if !dirty.contains(&e.id) && seen.insert(e.id.clone()) {
+                        chosen.push(e);
                     }
                 }
             }
@@ -1128,13 +1120,10 @@ fn part_search(o: &mut Outcome, rng: &mut Rng, tier: &str) {
 fn probe_group(id: &str) -> String {
     let p: Vec<&str> = id.split('|').collect();
     if p[0] == "g" && p.len() == 6 {
+        // no element of the generated universe is dirty on the pinned tree; one listed later gets a
+        // probe of its own template and position class
         let tag = p[2].split(':').nth(1).unwrap_or("?");
-        if p[3] == "BL" && (p[5] == "wrap" || p[5] == "wrapnorm") {
-            // W2: `/* a */ // b` on one line is rewritten as one block comment by wrap_comments
-            "W2".to_string()
-        } else {
-            format!("gen-{}-{}", p[1], tag)
-        }
+        format!("gen-{}-{}", p[1], tag)
     } else {
         "FX".to_string()
     }
@@ -1191,6 +1180,6 @@ pub fn run(tier: &str, seed: u64, out: &Path) -> i32 {
     if which.contains("search") {
         part_search(&mut o, &mut r2, tier);
     }
-    o.notes.push("generated universe = 17 templates x holes x 13 comment styles x 10 widths x 30 option sets: quick runs every (hole, style) with 4 seeded (width, option set) choices, thorough runs the whole universe; fixture universe = fixtures with a non-doc comment x {base, 7 widths, 20 option singles}; elements listed in corpus/c03_dirty.txt run as probes".into());
+    o.notes.push("generated universe = 17 templates x holes x 13 comment styles x 10 widths x 30 option sets: quick runs every (hole, style) with 4 seeded (width, option set) choices, thorough with 60 (the whole universe of 2,671,500 elements was measured clean with --tier sweep-gen); fixture universe = fixtures with a non-doc comment x {base, 7 widths, 20 option singles}; elements listed in corpus/c03_dirty.txt run as probes".into());
     o.finish(out, jobs())
 }
